@@ -49,5 +49,25 @@ func TestSweep(t *testing.T) {
 			}
 		}
 	}
+	// bursts: g buffers outstanding at once, all put back (oldest first / newest first), then g+1 gets
+	for _, tn := range []string{"int16", "float64", "uint8"} {
+		for _, sh := range [][3]int{{1, 0, 2}, {2, 1, 3}, {3, 2, 2}} {
+			for g := 1; g <= 40; g++ {
+				for order := 0; order < 2; order++ {
+					var ops []Op
+					for i := 0; i < g; i++ {
+						ops = append(ops, Op{Kind: "get", N: i % 2})
+					}
+					for i := 0; i < g; i++ {
+						ops = append(ops, Op{Kind: "put", I: order * (g - 1 - i)})
+					}
+					for i := 0; i <= g; i++ {
+						ops = append(ops, Op{Kind: "get", N: (i + 1) % 2})
+					}
+					Oracle.One(t, env, rec, "sweep", &Case{T: tn, C: sh[0], L: sh[1], K: sh[2], Ops: ops, MaxOut: 41})
+				}
+			}
+		}
+	}
 	rec.Exhaustive("13 types x C<=3 x all L<=K<=3(5) x {appendSamples, appendSmall, write, writeStriped, set} x every argument 0..C*K+1 x {no reslice, reslice to 0..K} in the history get,use,[reslice],put,get,get", true)
 }
